@@ -77,7 +77,7 @@ def judge_pairs(c, K, G, ev, vecs, label, k_req):
         ref = lam_pos[:nj]
         # clustered reference values: compare as sorted sets with relative tolerance
         # forward accuracy of both the reference and the solver: eps*cond(K) on the largest |mu|
-        vt = np.maximum(VAL_TOL, 1e4 * EPS * np.abs(ref)) + 10 * EPS * c.info['condK'] * np.abs(ref) / np.abs(ref).min()
+        vt = np.maximum(VAL_TOL, 1e4 * EPS * np.abs(ref)) + 100 * EPS * c.info['condK'] * np.abs(ref) / np.abs(ref).min()
         err = np.abs(got - ref) / np.abs(ref) / vt * VAL_TOL
         c.judge(label + ' smallest positive multipliers ascending', err.max() if nj else 0.0, VAL_TOL,
                 data={'got': got, 'ref': ref})
@@ -178,7 +178,7 @@ def run_case(rng, tier, idx):
                 ev2, vecs2 = lb(K, G * s, tol=0, sparse_solver=sparse, silent=True, num_eigvalues=k)
                 nj = min(len(ev), len(ev2), lam_pos.size, vecs.shape[1], k)
                 e1 = np.real(np.asarray(ev[:nj])); e2 = np.real(np.asarray(ev2[:nj]))
-                c.judge('scaling: lam(s*KG) = lam/s', (np.abs(e2 * s - e1) / np.abs(e1) / np.maximum(1, (1e4 * 2.3e-16 * np.abs(e1) / s + 10 * 2.3e-16 * c.info['condK'] * np.abs(e1) / np.abs(e1).min()) / VAL_TOL)).max() if nj else 0., VAL_TOL)
+                c.judge('scaling: lam(s*KG) = lam/s', (np.abs(e2 * s - e1) / np.abs(e1) / np.maximum(1, (1e4 * 2.3e-16 * np.abs(e1) / s + 100 * 2.3e-16 * c.info['condK'] * np.abs(e1) / np.abs(e1).min()) / VAL_TOL)).max() if nj else 0., VAL_TOL)
             except Exception as e:
                 c.info['scaling_rejected'] = repr(e)[:100]
             # sparse vs dense agreement
@@ -186,7 +186,7 @@ def run_case(rng, tier, idx):
                 ev3, vecs3 = lb(K, G, tol=0, sparse_solver=not sparse, silent=True, num_eigvalues=k)
                 nj = min(len(ev), len(ev3), lam_pos.size, vecs.shape[1], vecs3.shape[1], k)
                 e1 = np.real(np.asarray(ev[:nj])); e3 = np.real(np.asarray(ev3[:nj]))
-                c.judge('sparse and dense paths agree', (np.abs(e3 - e1) / np.abs(e1) / np.maximum(1, (1e4 * 2.3e-16 * np.abs(e1) + 10 * 2.3e-16 * c.info['condK'] * np.abs(e1) / np.abs(e1).min()) / VAL_TOL)).max() if nj else 0., VAL_TOL)
+                c.judge('sparse and dense paths agree', (np.abs(e3 - e1) / np.abs(e1) / np.maximum(1, (1e4 * 2.3e-16 * np.abs(e1) + 100 * 2.3e-16 * c.info['condK'] * np.abs(e1) / np.abs(e1).min()) / VAL_TOL)).max() if nj else 0., VAL_TOL)
                 judge_pairs(c, K0, G0, ev3, vecs3, 'lb(other path)', k)
             except Exception as e:
                 c.info['otherpath_rejected'] = repr(e)[:100]
